@@ -64,11 +64,11 @@ Proof.
     apply andb_true_iff in Hrest. destruct Hrest as [H1 _]. apply negb_true_iff in H1. exact H1.
 Qed.
 
-Lemma pct_run_quote_rest_ok rest : rest_ok rest = true -> pct_run_quote rest = false.
+Lemma starts_pct_rest_ok rest : rest_ok rest = true -> starts_pct rest = false.
 Proof.
   intro H. destruct rest as [|y r]; [reflexivity|]. cbn [rest_ok] in H.
   apply andb_true_iff in H. destruct H as [_ H2]. apply negb_true_iff in H2.
-  unfold pct_run_quote. cbn [span]. rewrite H2. reflexivity.
+  cbn [starts_pct]. exact H2.
 Qed.
 
 Lemma head_not_dq us c cont rest :
@@ -99,7 +99,7 @@ Proof.
       destruct (head_not_dq us c cont rest Hus Hc) as (h & tl & Hhd & Hnq).
       unfold lex_key. rewrite Hhd. rewrite Hnq. rewrite <- Hhd.
       rewrite (ident_span_bare us c cont rest Hus Hc Hcont Hrest).
-      rewrite (pct_run_quote_rest_ok rest Hrest). cbn [andb].
+      rewrite (starts_pct_rest_ok rest Hrest). cbn [andb].
       destruct (mem (us ++ c :: cont) reserved) eqn:Hres; cbn [key_of]; [|reflexivity].
       (* reserved but bare: the tables say the grammar accepts it as a field name *)
       unfold tables_ok in Htab. rewrite forallb_forall in Htab.
